@@ -3,7 +3,7 @@
    WfB (Builder_proofs.v) this needs: stored integers in the range of their type, offsets starting
    at 0, monotone and inside their index type, and valid UTF-8 in every slot of a string column
    (for inputs whose text is valid UTF-8, which Rust's str / char guarantee by type). *)
-From Verif Require Import Builder Builder_proofs Bits_proofs Reader_proofs Decode_proofs Refine_proofs Decimal_proofs.
+From Verif Require Import Builder Builder_proofs Bits_proofs Reader_proofs Decode_proofs Refine_proofs Decimal_proofs Take Take_proofs.
 Require Import ZifyBool ZifyN ZifyNat.
 Local Open Scope nat_scope.
 
@@ -110,7 +110,7 @@ Definition U8Inv (offs : list Z) (data : list N) : Prop :=
 Fixpoint Inv2 (b : Builder) : Prop :=
   match b with
   | BdBool _ _ _ => True
-  | BdPrim k _ vals => Forall (fun z => in_int k z = true) vals
+  | BdPrim k _ vals => Forall (fun z => prim_range k z = true) vals
   | BdUtf8 k _ offs data => OffsX (is_wide k) offs /\ U8Inv offs data
   | BdList k _ offs _ e => OffsX (list_wide k) offs /\ Inv2 e
   | BdStruct _ _ cs => (fix go (cs : list (Meta * Builder)) : Prop := match cs with [] => True | (_, c) :: r => Inv2 c /\ go r end) cs
@@ -127,6 +127,14 @@ Definition Good (b : Builder) : Prop := WfB b /\ Inv2 b.
 (* ---------------- preservation ---------------- *)
 Lemma in_int_0 k : in_int k 0 = true.
 Proof. destruct k; reflexivity. Qed.
+Lemma primkind_eqb_refl k : primkind_eqb k k = true.
+Proof.
+  destruct k as [i| | | | | |u|u|u tz|u|p sc]; cbn [primkind_eqb]; try reflexivity; try (destruct i; reflexivity); try (destruct u; reflexivity).
+  - destruct u; (destruct tz as [t|]; cbn; [apply bytes_eqb_refl|reflexivity]).
+  - rewrite N.eqb_refl, Z.eqb_refl. reflexivity.
+Qed.
+Lemma prim_range_0 k : prim_range k 0 = true.
+Proof. destruct k as [i| | | | | |u|u|u tz|u|p sc]; try reflexivity. destruct i; reflexivity. Qed.
 
 Lemma offs_len2 offs : offs <> [] -> length (duplicate_last offs) >= 2.
 Proof. intros H. unfold duplicate_last. rewrite app_length. destruct offs; [congruence|cbn; lia]. Qed.
@@ -148,7 +156,7 @@ Lemma push_default_inv2 : forall b, WfB b -> Inv2 b -> Inv2 (push_default b).
 Proof.
   intros b. induction b as [v vals len|k v vals|k v offs data|k v offs m e IHe|len v cs IH] using Builder_ind'; intros Hw Hi; cbn [push_default].
   - exact I.
-  - cbn [Inv2] in *. apply Forall_app. split; [exact Hi|constructor; [apply in_int_0|constructor]].
+  - cbn [Inv2] in *. apply Forall_app. split; [exact Hi|constructor; [apply prim_range_0|constructor]].
   - destruct Hw as [_ Ho]. destruct Hi as [Hx Hu]. split; [apply OffsX_dup; [apply Ho|exact Hx]|apply U8Inv_dup; assumption].
   - destruct Hw as (_ & Ho & He). destruct Hi as [Hx Hie]. split; [apply OffsX_dup; [apply Ho|exact Hx]|exact Hie].
   - apply WfB_struct in Hw as [_ Hch]. apply Inv2_struct in Hi. apply Inv2_struct. apply Forall_map.
@@ -160,7 +168,7 @@ Proof.
   destruct b as [v vals len|k v vals|k v offs data|k v offs m e|len v cs]; cbn [push_none]; intros Hw Hi H;
     apply bind_ok in H as (v' & Hs & H); injection H as <-.
   - exact I.
-  - cbn [Inv2] in *. apply Forall_app. split; [exact Hi|constructor; [apply in_int_0|constructor]].
+  - cbn [Inv2] in *. apply Forall_app. split; [exact Hi|constructor; [apply prim_range_0|constructor]].
   - destruct Hw as [_ Ho]. destruct Hi as [Hx Hu]. split; [apply OffsX_dup; [apply Ho|exact Hx]|apply U8Inv_dup; assumption].
   - destruct Hw as (_ & Ho & He). destruct Hi as [Hx Hie]. split; [apply OffsX_dup; [apply Ho|exact Hx]|exact Hie].
   - apply WfB_struct in Hw as [_ Hch]. apply Inv2_struct in Hi. apply Inv2_struct. apply Forall_map.
@@ -248,12 +256,12 @@ Qed.
 Lemma inv2_of_goodch len v cs : GoodCh cs -> Inv2 (BdStruct len v cs).
 Proof. intros H. apply Inv2_struct. unfold GoodCh in H. eapply Forall_impl; [|exact H]. intros mb [_ Hi]. exact Hi. Qed.
 
-Lemma prim_value_range k x z : prim_value k x = Ok z -> in_int k z = true.
+Lemma prim_value_range k x z : prim_value k x = Ok z -> prim_range k z = true.
 Proof.
-  destruct x; cbn [prim_value]; try discriminate.
-  - intros H. injection H as <-. destruct v, k; reflexivity.
-  - destruct (in_int k z0) eqn:E; [|discriminate]. intros H. injection H as <-. exact E.
-  - destruct (in_int k c) eqn:E; [|discriminate]. intros H. injection H as <-. exact E.
+  destruct k as [i| | | | | |u|u|u tz|u|p sc]; destruct x; cbn [prim_value prim_range]; try discriminate;
+    try (match goal with k0 : IntKind |- _ => destruct k0; try discriminate end);
+    try (match goal with |- (if ?c then _ else _) = _ -> _ => destruct c eqn:E; [|discriminate] end);
+    intros H; injection H as <-; try exact E; try (destruct v; reflexivity); try (destruct v, i; reflexivity).
 Qed.
 
 Lemma pres2_scalar v : scalar_like v = true -> leaf_text_ok v -> Pres2 push v.
@@ -294,7 +302,7 @@ Proof.
   intros v. induction v as [x|k z|x|x|c|s|s| |x IHx| | |x IHx|l IHl|l IHl|l IHl|kvs IHk|fields IHf|i n|i n x IHx|i n l IHl|i n fields IHf] using Value_ind';
     intros Ht; try (apply pres2_scalar; [reflexivity|exact Ht]).
   - (* bytes *)
-    intros b b' Hw Hi Hp. destruct b as [val vals len|k val vals|k val offs data|k val offs m e|len val cs]; cbn [push] in Hp; try discriminate Hp.
+    intros b b' Hw Hi Hp. destruct b as [val vals len|k val vals|k val offs data|k val offs m e|len val cs]; cbn [push] in Hp; try discriminate Hp; try (rewrite prim_value_nonscalar in Hp by exact I; discriminate Hp).
     refine (push_list_inv2 push_scalar k val offs m e _ b' _ _ Hw Hi Hp).
     + apply Forall_map. apply Forall_forall. intros c _ b0 b0' H1 H2 H3. rewrite push_scalar_int in H3.
       refine (pres2_scalar (VInt U8 (Z.of_N c)) eq_refl _ b0 b0' H1 H2 H3). unfold leaf_text_ok. cbn [text_of_scalar]. apply print_Z_utf8.
@@ -308,13 +316,13 @@ Proof.
     cbn [text_ok] in Ht. apply text_ok_seq in Ht.
     assert (HS : Forall (Pres2 push) l) by (rewrite Forall_forall in *; intros x Hin; apply (IHl x Hin), (Ht x Hin)).
     assert (HP : Forall (PushOk push) l) by (apply Forall_forall; intros x _; apply push_wf).
-    intros b b' Hw Hi Hp. destruct b as [val vals len|k val vals|k val offs data|k val offs m e|len val cs]; cbn [push] in Hp; try discriminate Hp.
+    intros b b' Hw Hi Hp. destruct b as [val vals len|k val vals|k val offs data|k val offs m e|len val cs]; cbn [push] in Hp; try discriminate Hp; try (rewrite prim_value_nonscalar in Hp by exact I; discriminate Hp).
     exact (push_list_inv2 push k val offs m e l b' HS HP Hw Hi Hp).
   - (* tuple *)
     cbn [text_ok] in Ht. apply text_ok_seq in Ht.
     assert (HS : Forall (Pres2 push) l) by (rewrite Forall_forall in *; intros x Hin; apply (IHl x Hin), (Ht x Hin)).
     assert (HP : Forall (PushOk push) l) by (apply Forall_forall; intros x _; apply push_wf).
-    intros b b' Hw Hi Hp. destruct b as [val vals len|k val vals|k val offs data|k val offs m e|len val cs]; cbn [push] in Hp; try discriminate Hp.
+    intros b b' Hw Hi Hp. destruct b as [val vals len|k val vals|k val offs data|k val offs m e|len val cs]; cbn [push] in Hp; try discriminate Hp; try (rewrite prim_value_nonscalar in Hp by exact I; discriminate Hp).
     + exact (push_list_inv2 push k val offs m e l b' HS HP Hw Hi Hp).
     + apply bind_ok in Hp as (val' & _ & Hp). apply bind_ok in Hp as (st & Hloop & Hp). apply bind_ok in Hp as (cs' & Hfin & Hp). injection Hp as <-.
       apply inv2_of_goodch. eapply finish_record_good; [|exact Hfin]. eapply tuple_loop_good; [exact HS|exact HP| |exact Hloop]. cbn [fst]. eapply goodch_of; eassumption.
@@ -322,7 +330,7 @@ Proof.
     cbn [text_ok] in Ht. apply text_ok_seq in Ht.
     assert (HS : Forall (Pres2 push) l) by (rewrite Forall_forall in *; intros x Hin; apply (IHl x Hin), (Ht x Hin)).
     assert (HP : Forall (PushOk push) l) by (apply Forall_forall; intros x _; apply push_wf).
-    intros b b' Hw Hi Hp. destruct b as [val vals len|k val vals|k val offs data|k val offs m e|len val cs]; cbn [push] in Hp; try discriminate Hp.
+    intros b b' Hw Hi Hp. destruct b as [val vals len|k val vals|k val offs data|k val offs m e|len val cs]; cbn [push] in Hp; try discriminate Hp; try (rewrite prim_value_nonscalar in Hp by exact I; discriminate Hp).
     + exact (push_list_inv2 push k val offs m e l b' HS HP Hw Hi Hp).
     + apply bind_ok in Hp as (val' & _ & Hp). apply bind_ok in Hp as (st & Hloop & Hp). apply bind_ok in Hp as (cs' & Hfin & Hp). injection Hp as <-.
       apply inv2_of_goodch. eapply finish_record_good; [|exact Hfin]. eapply tuple_loop_good; [exact HS|exact HP| |exact Hloop]. cbn [fst]. eapply goodch_of; eassumption.
@@ -330,14 +338,14 @@ Proof.
     cbn [text_ok] in Ht. apply text_ok_map in Ht.
     assert (HS : Forall (fun kv : Value * Value => Pres2 push (snd kv)) kvs) by (rewrite Forall_forall in *; intros x Hin; apply (IHk x Hin), (Ht x Hin)).
     assert (HP : Forall (fun kv : Value * Value => PushOk push (snd kv)) kvs) by (apply Forall_forall; intros x _; apply push_wf).
-    intros b b' Hw Hi Hp. destruct b as [val vals len|k val vals|k val offs data|k val offs m e|len val cs]; cbn [push] in Hp; try discriminate Hp.
+    intros b b' Hw Hi Hp. destruct b as [val vals len|k val vals|k val offs data|k val offs m e|len val cs]; cbn [push] in Hp; try discriminate Hp; try (rewrite prim_value_nonscalar in Hp by exact I; discriminate Hp).
     apply bind_ok in Hp as (val' & _ & Hp). apply bind_ok in Hp as (st & Hloop & Hp). apply bind_ok in Hp as (cs' & Hfin & Hp). injection Hp as <-.
     apply inv2_of_goodch. eapply finish_record_good; [|exact Hfin]. eapply map_loop_good; [exact HS|exact HP| |exact Hloop]. cbn [fst]. eapply goodch_of; eassumption.
   - (* struct *)
     cbn [text_ok] in Ht. apply text_ok_struct in Ht.
     assert (HS : Forall (fun nv : bytes * Value => Pres2 push (snd nv)) fields) by (rewrite Forall_forall in *; intros x Hin; apply (IHf x Hin), (Ht x Hin)).
     assert (HP : Forall (fun nv : bytes * Value => PushOk push (snd nv)) fields) by (apply Forall_forall; intros x _; apply push_wf).
-    intros b b' Hw Hi Hp. destruct b as [val vals len|k val vals|k val offs data|k val offs m e|len val cs]; cbn [push] in Hp; try discriminate Hp.
+    intros b b' Hw Hi Hp. destruct b as [val vals len|k val vals|k val offs data|k val offs m e|len val cs]; cbn [push] in Hp; try discriminate Hp; try (rewrite prim_value_nonscalar in Hp by exact I; discriminate Hp).
     apply bind_ok in Hp as (val' & _ & Hp). apply bind_ok in Hp as (st & Hloop & Hp). apply bind_ok in Hp as (cs' & Hfin & Hp). injection Hp as <-.
     apply inv2_of_goodch. eapply finish_record_good; [|exact Hfin]. eapply struct_loop_good; [exact HS|exact HP| |exact Hloop]. cbn [fst]. eapply goodch_of; eassumption.
 Qed.
@@ -381,9 +389,9 @@ Proof.
     pose proof (validity_ok_of strict (mkField nm DBool nl) v len Hwv Hv) as Ev. cbn [fnullable'] in Ev. rewrite Ev. cbn [bm_off]. rewrite Nat.eqb_refl, Bool.orb_true_r.
     rewrite <- Hl, bits_of_pack. reflexivity.
   - destruct Hs as [Hd Hv]. cbn [fdt'] in Hd. subst dt. cbn [into_array wf_arr fdt' fnullable'].
-    pose proof (validity_ok_of strict (mkField nm (DPrim (PInt k)) nl) v _ Hw Hv) as Ev. cbn [fnullable'] in Ev. rewrite Ev.
-    assert (E : primkind_eqb (PInt k) (PInt k) = true) by (destruct k; reflexivity). rewrite E. cbn [andb].
-    cbn [Inv2] in Hi. apply forallb_forall. rewrite Forall_forall in Hi. intros z Hz. cbn [prim_range]. apply (Hi z Hz).
+    pose proof (validity_ok_of strict (mkField nm (DPrim k) nl) v _ Hw Hv) as Ev. cbn [fnullable'] in Ev. rewrite Ev.
+    assert (E : primkind_eqb k k = true) by (apply primkind_eqb_refl). rewrite E. cbn [andb].
+    cbn [Inv2] in Hi. apply forallb_forall. rewrite Forall_forall in Hi. intros z Hz. apply (Hi z Hz).
   - destruct Hs as (Hd & Hu & Hv). cbn [fdt'] in Hd. subst dt. destruct Hw as [Hwv Ho]. destruct Hi as [Hx Hu8]. cbn [into_array wf_arr fdt' fnullable'].
     pose proof (validity_ok_of strict (mkField nm (DBytes k) nl) v _ Hwv Hv) as Ev. cbn [fnullable'] in Ev. rewrite Ev, (offsets_ok_of strict _ _ _ Hx Ho), Hu.
     assert (E : byteskind_eqb k k = true) by (destruct k; reflexivity). rewrite E. cbn [andb negb orb].
@@ -410,7 +418,7 @@ Proof.
   intros f. induction f as [name dt nullable IH] using Field_ind'. intros b.
   destruct dt as [| |k|k|k|n|k cf|n cf|fs|en kf vf|key val|ufs]; try (cbn [build]; discriminate).
   - cbn [build]. intros H; injection H as <-. exact I.
-  - cbn [build]. destruct k; try discriminate. intros H; injection H as <-. constructor.
+  - cbn [build]. destruct (prim_built k); [|discriminate]. intros H; injection H as <-. constructor.
   - cbn [build]. destruct k; try discriminate; intros H; injection H as <-; (split; [repeat split|exists []; split; [reflexivity|constructor]]).
   - cbn [build]. cbn [FieldIH] in IH. destruct (build cf) as [cb|] eqn:Ec; [|discriminate]. intros H; injection H as <-.
     split; [destruct k; repeat split|apply IH; reflexivity].
@@ -458,11 +466,52 @@ Proof.
 Qed.
 
 (* ---------------- write, then read: the composition of C01, C03 and C02 on the core ---------------- *)
-Lemma construct_into : forall b, Reader.construct (into_array b) = true.
+(* the primitive kinds of a builder never change: they are those build admits *)
+Fixpoint Built (b : Builder) : bool :=
+  match b with
+  | BdPrim k _ _ => prim_built k
+  | BdList _ _ _ _ e => Built e
+  | BdStruct _ _ cs => forallb (fun mb : Meta * Builder => Built (snd mb)) cs
+  | _ => true
+  end.
+Lemma built_reset : forall b, Built (reset b) = Built b.
 Proof.
-  intros b. induction b as [v vals len|k v vals|k v offs data|k v offs m e IHe|len v cs IH] using Builder_ind'; cbn [into_array Reader.construct]; try reflexivity.
+  intros b. induction b as [v vals len|k v vals|k v offs data|k v offs m e IHe|len v cs IH] using Builder_ind'; cbn [reset Built]; try reflexivity.
   - exact IHe.
-  - apply forallb_forall. intros mc Hin. apply in_map_iff in Hin as (mb & <- & Hin). cbn [snd]. rewrite Forall_forall in IH. apply (IH mb Hin).
+  - induction IH as [|mb r Hmb _ IHr]; [reflexivity|]. cbn [map forallb snd]. rewrite Hmb, IHr. reflexivity.
+Qed.
+Lemma build_built : forall f b, build f = Some b -> Built b = true.
+Proof.
+  intros f. induction f as [name dt nullable IH] using Field_ind'. intros b.
+  destruct dt as [| |k|k|k|n|k cf|n cf|fs|en kf vf|key val|ufs]; try (cbn [build]; discriminate).
+  - cbn [build]. intros H; injection H as <-. reflexivity.
+  - cbn [build]. destruct (prim_built k) eqn:E; [|discriminate]. intros H; injection H as <-. exact E.
+  - cbn [build]. destruct k; try discriminate; intros H; injection H as <-; reflexivity.
+  - cbn [build]. cbn [FieldIH] in IH. destruct (build cf) as [cb|] eqn:Ec; [|discriminate]. intros H; injection H as <-. cbn [Built]. apply IH. reflexivity.
+  - rewrite build_struct. cbn [FieldIH] in IH. destruct (build_fields fs) as [cs|] eqn:Eg; [|discriminate].
+    intros H; injection H as <-. cbn [Built].
+    revert cs Eg. induction IH as [|cf r Hcf _ IHr]; intros cs Eg; cbn [build_fields] in Eg.
+    + injection Eg as <-. reflexivity.
+    + destruct (build cf) as [cb|] eqn:Ec; [|discriminate]. fold build_fields in Eg.
+      destruct (build_fields r) as [rest|] eqn:Er; [|discriminate].
+      injection Eg as <-. cbn [forallb snd]. rewrite (Hcf cb eq_refl), (IHr rest eq_refl). reflexivity.
+Qed.
+Lemma built_push_all f b0 recs b : build f = Some b0 -> push_all b0 recs = Ok b -> Built b = true.
+Proof.
+  intros Hb Hp. rewrite <- built_reset. pose proof (take_is_fresh f b0 recs b Hb Hp) as E. cbn [take snd] in E. rewrite E. apply (build_built f b0 Hb).
+Qed.
+
+Lemma utc_tz_built u tz : prim_built (PTimestamp u tz) = true -> Reader.utc_tz tz = true.
+Proof.
+  destruct tz as [t|]; cbn [prim_built]; [|reflexivity]. intros H. apply bytes_eqb_eq in H. subst t. reflexivity.
+Qed.
+
+Lemma construct_into : forall b, Built b = true -> Reader.construct (into_array b) = true.
+Proof.
+  intros b. induction b as [v vals len|k v vals|k v offs data|k v offs m e IHe|len v cs IH] using Builder_ind'; cbn [into_array Reader.construct Built]; intros HB; try reflexivity.
+  - destruct k; try reflexivity. apply (utc_tz_built _ _ HB).
+  - apply IHe, HB.
+  - apply forallb_forall. intros mc Hin. apply in_map_iff in Hin as (mb & <- & Hin). cbn [snd]. rewrite Forall_forall in IH. rewrite forallb_forall in HB. apply (IH mb Hin), (HB mb Hin).
 Qed.
 
 Lemma addressable_into : forall b, addressable (into_array b) = true.
@@ -475,9 +524,11 @@ Qed.
 Lemma to_marrow_arrays fields recs arrs : to_marrow fields recs = Some (Ok arrs) ->
   Forall (fun a => Reader.construct a = true /\ addressable a = true) arrs.
 Proof.
-  unfold to_marrow. destruct (build _) as [b0|]; [|discriminate]. intros H. injection H as H. apply bind_ok in H as (b & _ & H).
-  destruct b as [| | | |len v cs]; try discriminate. injection H as <-. apply Forall_map. apply Forall_forall. intros mb _.
-  split; [apply construct_into|apply addressable_into].
+  unfold to_marrow. destruct (build _) as [b0|] eqn:Eb; [|discriminate]. intros H. injection H as H. apply bind_ok in H as (b & Hp & H).
+  pose proof (built_push_all _ b0 recs b Eb Hp) as HB.
+  destruct b as [| | | |len v cs]; try discriminate. injection H as <-. apply Forall_map. apply Forall_forall. intros mb Hin.
+  cbn [Built] in HB. rewrite forallb_forall in HB.
+  split; [apply construct_into, (HB mb Hin)|apply addressable_into].
 Qed.
 
 Lemma wf_batch_nth strict : forall fields arrs n j f a, wf_batch strict fields arrs n = true ->
